@@ -333,6 +333,7 @@ func generate(rng *lib.RNG, n int) []hostile {
 	e.iterMutation()
 	e.builtinMisuse(0)
 	e.cyclicSafe()
+	e.closureCopies()
 	fixed := len(e.out)
 	rest := n - fixed
 	if rest < 300 {
@@ -347,4 +348,25 @@ func generate(rng *lib.RNG, n int) []hostile {
 		e.out[i], e.out[j] = e.out[j], e.out[i]
 	}
 	return e.out
+}
+
+// closureCopies (round 10, seeded change C05-m13: Copy of a closure copies its captured cells, a closure that captures
+// itself then recurses natively without end): copy() and Clone() of closures whose cells lead back to the closure —
+// a local recursive function, mutually recursive locals, a map holding a closure that captures the map — and of
+// containers of such closures. On the unchanged tree copies share the cells, so nothing here recurses natively.
+func withClone(h *hostile) { h.Clone = true }
+
+func (e *emitter) closureCopies() {
+	progs := []string{
+		"mk := func() {\n\tfact := func(n) { return n <= 1 ? 1 : n * fact(n-1) }\n\treturn fact\n}\nf := mk()\ng := copy(f)\nout := g(5)\n",
+		"mk := func() {\n\tfact := func(n) { return n <= 1 ? 1 : n * fact(n-1) }\n\treturn fact\n}\nf := mk()\nout := f(5)\n",
+		"mk := func() {\n\tev := undefined\n\tod := func(n) { return n == 0 ? false : ev(n-1) }\n\tev = func(n) { return n == 0 ? true : od(n-1) }\n\treturn [ev, od]\n}\np := mk()\nq := copy(p)\nout := [q[0](10), q[1](7), p[0](3)]\n",
+		"mk := func() {\n\tm := {n: 0}\n\tm.f = func() { m.n += 1; return m.n }\n\treturn m.f\n}\nf := mk()\ng := copy(f)\nout := [f(), g(), f()]\n",
+		"mk := func() {\n\tc := 0\n\tinc := func() { c += 1; return c }\n\tget := func() { return [c, inc] }\n\treturn {inc: inc, get: get}\n}\no := mk()\no2 := copy(o)\nimm := immutable(o)\nfr := copy(imm)\nout := [o.inc(), o2.inc(), fr.get()[0]]\n",
+		"loop := func() {\n\tfs := []\n\tfor i := 0; i < 4; i++ {\n\t\tg := func(n) { return n == 0 ? i : g(n-1) }\n\t\tfs = append(fs, g)\n\t}\n\treturn fs\n}\nfs := loop()\ncs := copy(fs)\nout := [cs[0](3), cs[3](2), fs[1](1)]\n",
+		"mk := func(d) {\n\tw := func(n) { return n == 0 ? d : w(n-1) }\n\treturn d == 0 ? w : [w, mk(d-1)]\n}\nt := mk(5)\nu := copy(t)\ne := error(t)\nv := copy(e)\nout := u[0](2)\n",
+	}
+	for _, p := range progs {
+		e.add("closure-copy", p, label("ok"), withClone)
+	}
 }
